@@ -354,7 +354,7 @@ def r8(ctx, R):
         chain = [s for s in dn if bool_nf(s.value) == ('and', ('S.status.done', 'S.status.prev_done'))]
         ok = len(chain) == 1 and facts.guard_strings(cfg, chain[0]) == ['not S.status.first'] and pd and cfg.dominates(cfg.node_of[id(pd[0])], cfg.node_of[id(chain[0])])
         R.check(ok, f'{spec[1]}.it_check :: done := done and prev_done (steps finish in time order)', h.where, 'conjunction with prev_done after it was refreshed', [ast.unparse(s) for s in dn])
-        allto = [s for s in dn if ast.unparse(s.value) == 'all((T.status.done for T in local_MS_running))']
+        allto = [s for s in dn if re.fullmatch(r'all\(\((\w+)\.status\.done for \1 in local_MS_running\)\)', ast.unparse(s.value))]
         ok = len(allto) == 1 and facts.guard_strings(cfg, allto[0]) == ['self.params.all_to_done'] and len(dn) == 2
         R.check(ok, f'{spec[1]}.it_check :: with all_to_done a step is done only when all running steps are', h.where, 'done = all(T.status.done for T in running) under all_to_done; no other writer', [ast.unparse(s) for s in dn])
         # order: chain -> all_to_done -> the branch on done
